@@ -8,7 +8,7 @@ ID = "C12"
 LEVEL = "proof"
 LEAN_IMPORTS = ["WM.Props.C12"]
 THEOREMS = ["WM.C12.supports", "WM.C12.block", "WM.C12.max", "WM.C12.leaf_bound", "WM.C12.skip_keeps",
-            "WM.C12.skip_keeps_mem", "WM.C12.replace_keeps_partial", "WM.C12.replace_keeps_boost_counterexample",
+            "WM.C12.skip_keeps_mem", "WM.C12.walk_keeps", "WM.C12.replace_keeps_partial", "WM.C12.replace_keeps_boost_counterexample",
             "WM.C12.bm25_mono", "WM.C12.tfidf_mono", "WM.C12.freq_mono", "WM.C12.coord_bound", "WM.C12.coord_threshold", "WM.C12.bm25_leaf_bound"]
 PARTIAL = {"WM.C12.replace_keeps_partial": "replace(q) is proved to keep every entry above q for trees whose boosts lie in "
                                            "(0, 1]; for boosts > 1 WrappingMatcher.replace hands the threshold to the "
@@ -23,7 +23,11 @@ PARTIAL = {"WM.C12.replace_keeps_partial": "replace(q) is proved to keep every e
                          "segments) and ArrayUnionMatcher (max of the buffered part and the boosted sum of the active sub-matchers; "
                          "positive scores and boost assumed). CoordMatcher: only its formulas are proved (coord_bound, "
                          "coord_threshold), the class is walked end-to-end; PreloadedUnionMatcher: differential programs only"}
-RULE = ("matcher trees (depth <= 3) over ListMatchers and real W3LeafMatchers (blocklimit 1..4); walks of <= 14 "
+RULE = ("matcher trees (depth <= 3; DisjunctionMaxMatcher built with tiebreak 0 and > 0) over ListMatchers and real "
+        "W3LeafMatchers (blocklimit 1..4); query stream: matchers built by Query.matcher(searcher) from random "
+        "Term/Or(scale)/And/Not/DisjunctionMax(tiebreak)/AndMaybe/AndNot/Require/ConstantScore trees with clause boosts "
+        "under Frequency/TF_IDF/BM25F/PL2/Multi, walked against exhaustive stepping, then search(limit=k) against the k "
+        "best scores; walk stream: schedules of next()/skip_to_quality(q) against the Lean runW (visited + remaining); walks of <= 14 "
         "next/skip_to/skip_to_quality/replace calls with thresholds taken from the scores present (0, negative, "
         "equal to a score, between scores, above the maximum); after every call block_quality >= score, max_quality >= "
         "every remaining score, no entry above the largest threshold lost/invented/rescored; non-trivial = a quality "
@@ -159,6 +163,213 @@ def weighting_stream(ctx, n, depth):
                           {"stream": "weightings", "seed": s, "depth": depth, "weighting": w, "tree": repr(t),
                            "lists": spec.lists if spec else None, "blocklimit": spec.blocklimit if spec else None, "ops": ops},
                           None, detail, "quality bound/skip wrong under weighting %r: %s" % (w, kind))
+
+
+# ------------------------------------------------------------------------------------------------
+# the quality walk (Lean `runW`, theorem walk_keeps): schedules of next()/skip_to_quality(q) issued while the
+# matcher is active - the loop of ScoredCollector.matches.  Correspondence: visited entries and the remaining list
+# of the real tree against the model's; and the theorem's claim itself against the Lean list (Layer S).
+
+def _den_text(entries):
+    return "(" + " ".join("(%d %s)" % (i, G.num(sc)) for i, sc in entries) + ")"
+
+
+def _walk_case(args):
+    seed, mode, depth = args
+    t, spec = C11.make_case(seed, mode, KINDS, depth)
+    rix = G.RealIndex(spec) if spec else None
+    try:
+        text = G.tree_sexp(t, rix)
+        base = dict(seed=seed, mode=mode, depth=depth, tree=text, root=t[0], size=G.tree_size(t),
+                    positive=G.min_boost(t) > 0, ops=[], Q=None, moved=False)
+        rng = random.Random(seed ^ 0x3A1C)
+        scores = C11._leaf_weights(t) + ([float(f) for _, fs in spec.lists for f in fs] if spec else [])
+        try:
+            m = G.build_real(t, rix)
+        except Exception as e:  # noqa
+            return dict(base, impl=G.err_name(e))
+        ops, visited, Q = [], [], None
+        try:
+            with G.watchdog():
+                for _ in range(rng.choice([3, 6, 10, 14])):
+                    if not m.is_active():
+                        break
+                    if rng.random() < 0.45 and m.supports_block_quality():
+                        q = G.thresholds(rng, m, scores)
+                        before = m.id()
+                        ops.append("(skipq %s)" % G.num(q))
+                        m.skip_to_quality(q)
+                        Q = q if Q is None else max(Q, q)
+                        if not m.is_active() or m.id() != before:
+                            base["moved"] = True
+                    else:
+                        ops.append("next")
+                        visited.append((m.id(), m.score()))
+                        m.next()
+                rest = G.drain(m)
+        except G.Hang:
+            return dict(base, ops=ops, impl="!HANG")
+        except Exception as e:  # noqa
+            return dict(base, ops=ops, impl=G.err_name(e))
+        return dict(base, ops=ops, Q=Q, impl=_den_text(visited) + " " + _den_text(rest), visited=visited, rest=rest)
+    finally:
+        if rix:
+            rix.close()
+
+
+def walk_stream(ctx, name, mode, n, depth):
+    rng = ctx.rng("walk:" + name)
+    cases = ctx.pmap(_walk_case, [(rng.getrandbits(48), mode, depth) for _ in range(n)], chunksize=max(1, n // 64))
+    replies = ctx.driver.ask(["c12 walk %s (%s)" % (c["tree"], " ".join(c["ops"])) for c in cases])
+    dens = ctx.driver.ask(["c12 den " + c["tree"] for c in cases])
+    for c, rep, d in zip(cases, replies, dens):
+        ctx.case(("walk", c["tree"], tuple(c["ops"])), nontrivial=c["size"] > 1 and c["moved"])
+        ctx.stat("walk:%s:cases" % name)
+        if c["moved"]:
+            ctx.stat("walk:skip_to_quality-moved")
+        case = {"stream": "walk", "seed": c["seed"], "mode": c["mode"], "depth": c["depth"], "tree": c["tree"], "ops": c["ops"]}
+        if rep != c["impl"]:
+            ctx.divergence("quality-walk:" + name, case, rep, c["impl"])
+        if c["Q"] is None and "visited" in c and not d.startswith("!"):
+            c["Q"] = float("-inf")
+        if c["positive"] and c.get("visited") is not None and not d.startswith("!"):
+            # walk_keeps on the real objects: every entry of the Lean list above Q was visited or is still there,
+            # and nothing above Q was invented
+            den = [(i, float(x)) for i, x in G.parse_den(d)]
+            seen = set(c["visited"]) | set(c["rest"])
+            lost = [e for e in den if e[1] > c["Q"] and e not in seen]
+            extra = [e for e in c["visited"] + c["rest"] if e[1] > c["Q"] and e not in set(den)]
+            if lost or extra:
+                ctx.violation("C12:walk:%s:%s" % ("lost" if lost else "invented", c["root"]), case, d,
+                              {"Q": c["Q"], "lost": lost[:3], "invented": extra[:3], "visited": c["visited"], "remaining": c["rest"]},
+                              "a next()/skip_to_quality(q) walk lost or invented an entry scoring above the largest threshold")
+
+
+# ------------------------------------------------------------------------------------------------
+# the matcher trees that *query construction* produces (Query.matcher(searcher)): the options of the query classes
+# reach the matcher classes only here (DisjunctionMax tiebreak through make_weighted_tree's kwargs, Or scale, clause
+# boosts, n-ary Or/And/DisMax through the huffman tree, ConstantScoreQuery, Not inside And).  Oracle: exhaustive
+# stepping of a fresh matcher of the same query; then the consequence the property names: a top-k search returns
+# the k best scores of that list.
+
+QUERY_WEIGHTINGS = [("freq",), ("freq",), ("tfidf",), ("bm25", 0.75, 1.2), ("bm25", 0.0, 2.0), ("bm25", 1.0, 0.5), ("pl2", 1.0),
+                    ("multi", ("bm25", 0.75, 1.2), ("tfidf",))]
+QUERY_TIEBREAKS = (0.0, 0.5, 0.25, 1.0, 0.125)
+
+
+def gen_query(rng, depth, nterms, under_coord=False):
+    """a query tree: ("t", j, boost) | ("or", subs, scale) | ("and", subs) | ("dismax", subs, tiebreak, boost) |
+    ("andmaybe"|"andnot"|"require", a, b) | ("const", score, q) | ("andwithnot", subs, neg)"""
+    if depth <= 0 or rng.random() < 0.2:
+        return ("t", rng.randrange(nterms), rng.choice([1.0, 1.0, 1.0, 0.5, 0.25]))
+    kinds = ["or", "or", "and", "dismax", "dismax", "dismax", "andmaybe", "andnot", "require", "const", "andwithnot"]
+    if under_coord:
+        # (CoordMatcher over a DisjunctionMax child: recorded finding SIG_COORD_DISMAX)
+        kinds = ["or", "and", "andmaybe"]
+    k = rng.choice(kinds)
+
+    def sub(uc=under_coord):
+        return gen_query(rng, depth - 1, nterms, uc)
+    if k == "or":
+        scale = rng.choice([None, None, None, 0.9, 0.5]) if not under_coord else None
+        uc = under_coord or scale is not None
+        return ("or", [sub(uc) for _ in range(rng.choice([2, 2, 3, 4]))], scale)
+    if k == "and":
+        return ("and", [sub() for _ in range(rng.choice([2, 2, 3]))])
+    if k == "dismax":
+        return ("dismax", [sub() for _ in range(rng.choice([2, 2, 2, 3, 4]))], rng.choice(QUERY_TIEBREAKS),
+                rng.choice([1.0, 1.0, 0.5]))
+    if k == "const":
+        return ("const", rng.choice([1.0, 2.0, 0.5]), sub())
+    if k == "andwithnot":
+        return ("andwithnot", [sub() for _ in range(rng.choice([1, 2]))], sub())
+    return (k, sub(), sub())
+
+
+def build_query(t):
+    from whoosh import query as Q
+    k = t[0]
+    if k == "t":
+        return Q.Term("f", u"t%d" % t[1], boost=t[2])
+    if k == "or":
+        return Q.Or([build_query(x) for x in t[1]], scale=t[2])
+    if k == "and":
+        return Q.And([build_query(x) for x in t[1]])
+    if k == "dismax":
+        return Q.DisjunctionMax([build_query(x) for x in t[1]], boost=t[3], tiebreak=t[2])
+    if k == "andmaybe":
+        return Q.AndMaybe(build_query(t[1]), build_query(t[2]))
+    if k == "andnot":
+        return Q.AndNot(build_query(t[1]), build_query(t[2]))
+    if k == "require":
+        return Q.Require(build_query(t[1]), build_query(t[2]))
+    if k == "const":
+        return Q.ConstantScoreQuery(build_query(t[2]), score=t[1])
+    if k == "andwithnot":
+        return Q.And([build_query(x) for x in t[1]] + [Q.Not(build_query(t[2]))])
+    raise ValueError(k)
+
+
+def query_kinds(t, acc=None):
+    acc = set() if acc is None else acc
+    acc.add(t[0] + ("~" if t[0] == "dismax" and t[2] else "") + ("^" if t[0] == "or" and t[2] is not None else ""))
+    for x in t[1:]:
+        if isinstance(x, tuple):
+            query_kinds(x, acc)
+        elif isinstance(x, list):
+            for y in x:
+                query_kinds(y, acc)
+    return acc
+
+
+def _run_query(seed):
+    rng = random.Random(seed)
+    w = rng.choice(QUERY_WEIGHTINGS)
+    spec = G.gen_index_spec(rng, 5, weighting=w, deleted=(rng.random() < 0.15))
+    t = gen_query(rng, rng.choice([1, 2, 2, 3]), len(spec.lists))
+    kinds = sorted(query_kinds(t))
+    rix = G.RealIndex(spec)
+    ops = []
+    try:
+        s = rix.searcher
+        q = build_query(t)
+        try:
+            with G.watchdog():
+                den = G.drain(q.matcher(s, s.context()))
+            res = G.e2e_quality(rng, q.matcher(s, s.context()), den, tol=1e-9)
+            if res is not None:
+                return (w, res[0], res[1], [G.op_sexp(o) for o in res[2]], t, kinds, spec)
+            # the consequence: top-k by search() = the k best scores of the exhaustive list
+            if den:
+                k = rng.choice([1, 1, 2, 3, 5])
+                best = sorted((sc for _, sc in den), reverse=True)[:k]
+                with G.watchdog():
+                    got = [h.score for h in s.search(q, limit=k)]
+                if len(got) != len(best) or any(not G.approx_eq(a, b, 1e-9) for a, b in zip(got, best)):
+                    return (w, "search(limit=k)-scores-differ-from-the-k-best-of-stepping", {"k": k, "expected": best, "got": got},
+                            [], t, kinds, spec)
+        except G.Hang:
+            return (w, "does-not-terminate", {}, [], t, kinds, spec)
+        except Exception as e:  # noqa
+            return (w, "raises " + G.err_name(e), {}, [], t, kinds, spec)
+        return (w, "ok", None, None, t, kinds, None)
+    finally:
+        rix.close()
+
+
+def query_stream(ctx, n):
+    rng = ctx.rng("e2e:query")
+    seeds = [rng.getrandbits(48) for _ in range(n)]
+    for s, (w, kind, detail, ops, t, kinds, spec) in zip(seeds, ctx.pmap(_run_query, seeds, chunksize=max(1, n // 64))):
+        ctx.case(("query", s), nontrivial=t[0] != "t")
+        ctx.stat("query:weighting:" + w[0])
+        for k in kinds:
+            ctx.stat("query:node:" + k)
+        if kind != "ok":
+            ctx.violation("C12:query:%s:%s:%s" % (w[0], kind, t[0]),
+                          {"stream": "query", "seed": s, "weighting": w, "query": repr(t),
+                           "lists": spec.lists if spec else None, "blocklimit": spec.blocklimit if spec else None, "ops": ops},
+                          None, detail, "matcher built by Query.matcher(): quality bound/skip/replace/top-k wrong under %r: %s" % (w, kind))
 
 
 # ------------------------------------------------------------------------------------------------
@@ -340,6 +551,10 @@ def run(ctx):
     C11.combo_e2e(ctx, "C12", n // 4, quality=True)
     weighting_stream(ctx, n // 2, 2)
     coord_stream(ctx, n // 2)
+    query_stream(ctx, n // 2)
+    walk_stream(ctx, "list", "list", n // 2, 3)
+    walk_stream(ctx, "w3", "w3", n // 4, 3)
+    walk_stream(ctx, "mixed", "mixed", n // 4, 3)
     coord_dismax_demo(ctx)
     multi_exhausted_demo(ctx)
     float32_stream(ctx)
@@ -357,6 +572,13 @@ def replay(ctx, rec):
         elif stream == "coord":
             w, kind, detail, ops, t, scale = _run_coord(case["seed"])
             res = None if kind == "ok" else (kind, detail)
+        elif stream == "walk":
+            c = _walk_case((case["seed"], case["mode"], case["depth"]))
+            rep = ctx.driver.ask1("c12 walk %s (%s)" % (c["tree"], " ".join(c["ops"])))
+            res = None if rep == c["impl"] else ("walk differs from the model", {"model": rep, "impl": c["impl"]})
+        elif stream == "query":
+            r = _run_query(case["seed"])
+            res = None if r[1] == "ok" else (r[1], r[2], r[3])
         elif stream == "multi-exhausted":
             before = len(ctx.violations)
             multi_exhausted_demo(ctx)
@@ -391,7 +613,12 @@ MANIFEST = {
                   "walk of the real classes under every shipped weighting (Frequency exact against the Lean lists; TF_IDF, "
                   "BM25F, PL2, Reverse, Multi against exhaustive stepping of the same tree), of ArrayUnion/MultiMatcher over "
                   "modelled sub-matchers and of CoordMatcher (Or(..., scale)) against exhaustive stepping; the coordination formula "
-                  "and the threshold conversion of the repaired CoordMatcher are proved over Rat (coord_bound, coord_threshold).",
+                  "and the threshold conversion of the repaired CoordMatcher are proved over Rat (coord_bound, coord_threshold). "
+                  "walk_keeps composes the single-step theorems into the loop of ScoredCollector.matches: for every schedule of "
+                  "next()/skip_to_quality(q <= Q) every entry scoring above Q is visited or still remaining, nothing above Q is "
+                  "invented (Lean runW, compared with the real classes call by call in the walk stream). The matchers that query "
+                  "construction builds (Query.matcher(searcher) with the query classes' options: DisjunctionMax tiebreak, Or "
+                  "scale, clause boosts, n-ary huffman trees) are walked end-to-end against exhaustive stepping and a top-k search.",
     "level_note": "Partial: replace(q) is proved for boosts in (0,1]; for boosts > 1 it is false of the code (proved "
                   "counterexample, known finding; a failing walk is filed under it only if the corrected wrapper passes it AND "
                   "the Lean model of the pinned code fails on it too). Scores are assumed non-negative (Reverse weighting is "
